@@ -140,17 +140,17 @@ def get_username(uid):
 def set_owner_process(uid, gid, initgroups=False):
     """ set user and group of workers processes """
 
-    if gid:
-        if uid:
-            try:
-                username = get_username(uid)
-            except KeyError:
-                initgroups = False
+    if initgroups:
+        try:
+            username = get_username(uid if uid else os.getuid())
+        except KeyError:
+            initgroups = False
 
-        if initgroups:
-            os.initgroups(username, gid)
-        elif gid != os.getgid():
-            os.setgid(gid)
+    if initgroups:
+        os.initgroups(username, gid)
+
+    if gid and gid != os.getgid():
+        os.setgid(gid)
 
     if uid and uid != os.getuid():
         os.setuid(uid)
